@@ -319,6 +319,9 @@ def _check_main(ctx, rep: Report):
 def check(ctx, rep):
     from . import metarules, shared
     _check_main(ctx, rep)
+    from . import metarules, r5rules
+    r5rules.nearest_stop(ctx, rep, "C18.DEFAULT")
+    r5rules.mutate_value_inplace_sites(ctx, rep, "C18.MV")
     shared.unused_params(ctx, rep, "C18.PARAM", ["spec_classes.types.alias"], floor=5)
     from .c02 import pt_rule
     pt_rule(ctx, rep, "C18.COPYSET")
